@@ -92,6 +92,9 @@ func (v DenseReal64Vector) SET(w DenseReal64Vector) {
   }
 }
 func (v DenseReal64Vector) SLICE(i, j int) DenseReal64Vector {
+  if j > len(v) {
+    panic(fmt.Errorf("slice [%d:%d] out of bounds for vector of dimension %d", i, j, len(v)))
+  }
   return v[i:j]
 }
 func (v DenseReal64Vector) APPEND(w DenseReal64Vector) DenseReal64Vector {
@@ -142,6 +145,9 @@ func (v DenseReal64Vector) ReverseOrder() {
   }
 }
 func (v DenseReal64Vector) Slice(i, j int) Vector {
+  if j > len(v) {
+    panic(fmt.Errorf("slice [%d:%d] out of bounds for vector of dimension %d", i, j, len(v)))
+  }
   return v[i:j]
 }
 func (v DenseReal64Vector) Swap(i, j int) {
@@ -205,6 +211,9 @@ func (v DenseReal64Vector) ConstAt(i int) ConstScalar {
   return v[i]
 }
 func (v DenseReal64Vector) ConstSlice(i, j int) ConstVector {
+  if j > len(v) {
+    panic(fmt.Errorf("slice [%d:%d] out of bounds for vector of dimension %d", i, j, len(v)))
+  }
   return v[i:j]
 }
 func (v DenseReal64Vector) AsConstMatrix(n, m int) ConstMatrix {
@@ -219,6 +228,9 @@ func (v DenseReal64Vector) MagicAt(i int) MagicScalar {
   return v.AT(i)
 }
 func (v DenseReal64Vector) MagicSlice(i, j int) MagicVector {
+  if j > len(v) {
+    panic(fmt.Errorf("slice [%d:%d] out of bounds for vector of dimension %d", i, j, len(v)))
+  }
   return v[i:j]
 }
 func (v DenseReal64Vector) ResetDerivatives() {
